@@ -91,7 +91,7 @@ def ob_container_rt(c, v, si, ci, mi, given, parsed, mv):
         recs = _records(c, v)
     except OutOfDomain:
         return True, "out of domain"
-    if si < 1 or not (0 <= ci < len(CODECS)) or not (0 <= mi < len(MARKERS)) or not (0 <= mv < len(shape.POOL)):
+    if si < 1 or not (0 <= ci < len(CODECS)) or not (0 <= mi < len(MARKERS)) or not (0 <= mv <= len(shape.POOL)):
         return True, "out of domain"
     codec_name = CODECS[0]
     for i, x in enumerate(CODECS):
@@ -108,9 +108,14 @@ def ob_container_rt(c, v, si, ci, mi, given, parsed, mv):
     out, store = seq_out()
     saved = W.urandom
     W.urandom = lambda n: marker if n == 16 else saved(n)
+    user_meta = {"user.key": meta}
+    if mv == len(shape.POOL):
+        # metadata carried over from another file: it already holds the reserved keys, naming ANOTHER codec and schema;
+        # the file written now must describe itself (the codec and schema actually used)
+        user_meta = {"avro.codec": "bzip2" if codec_name != "bzip2" else "null", "user.key": meta, "avro.schema": '"string"'}
     try:
         sch = c["parsed"] if parsed else c["schema"]
-        W.writer(out, sch, recs, codec=codec_name, sync_interval=si, metadata={"user.key": meta},
+        W.writer(out, sch, recs, codec=codec_name, sync_interval=si, metadata=user_meta,
                  sync_marker=marker if given else b"")
     except Exception as e:
         return False, f"writer raised {type(e).__name__}: {e} for {recs!r} codec={codec_name} si={si}"
